@@ -18,7 +18,7 @@ Nothing is exported by `from .c06_handlers import *`: the Specs register themsel
 import ast
 import z3
 from pyvc.contracts import *
-from pyvc.engine import Out
+from pyvc.engine import Out, LoopSpec
 from pyvc.values import *
 from pyvc.builtins_model import unbe
 from .common import PACKET_CLASSES, PACKET_INLINE, PACKET_TRUTHY, ROLE_STUBS
@@ -501,6 +501,46 @@ if _parent is not None and hasattr(_parent, 'ASSUMPTIONS'):
     for _a in ASSUMPTIONS_HANDLERS:
         if _a not in _parent.ASSUMPTIONS:
             _parent.ASSUMPTIONS.append(_a)
+
+
+# ------------------------------------------------------------------------------------------------ remaining writers of _auth
+# (A1 only needs: receive keys exist when they run, and they never clear them)
+def enc_kept(c):
+    return z3.And(is_set(c, '_recv_encryption', old=False), A1A2(c, old=False))
+
+
+def lookup_auth_stub(cx):
+    return [Out(ret=cx.fresh('opt[obj:Auth]', 'looked_up_auth'), event=('lookup_auth', ()))]
+
+
+lookup_auth_stub.modifies = ()
+W_REQUIRES = lambda c: z3.And(is_set(c, '_recv_encryption'), A1A2(c))      # noqa: E731
+
+try_next_auth = finish(Spec(
+    'C06', 'connection', 'SSHClientConnection.try_next_auth', self_class='SSHClientConnection',
+    params=dict(next_method='bool'), classes=dict(CLASSES, SSHClientConnection=dict(FIELDS, _host='str')),
+    stubs={'self._auth.cancel': noop('auth_cancel'), 'lookup_client_auth': lookup_auth_stub,
+           'self._force_close': noop('force_close')},
+    loops={1: LoopSpec(invariant=lambda c: enc_kept(c), modifies=['_auth', '_auth_methods'])},
+    # call sites (_process_service_accept, _process_userauth_failure, client auth objects) run behind messages the
+    # gate admits only with receive keys; the two under contract here carry that as a pre-at-call obligation
+    requires=W_REQUIRES,
+    always=[('A1,A2-hold-afterwards;receive-keys-kept', enc_kept),
+            ('auth_complete-untouched', lambda c: c.new('_auth_complete') == c.old('_auth_complete'))],
+    raises={'IndexError': True}))
+
+finish_userauth = finish(Spec(
+    'C06', 'connection', 'SSHConnection._finish_userauth', self_class='SSHConnection',
+    params=dict(begin_auth='bool', method='bytes', packet='obj:SSHPacket'), classes=CLASSES, truthy=PACKET_TRUTHY,
+    stubs={'*.reload_config': ret('any', 'reloaded'), '*.begin_auth': ret('any', 'begin_auth_result'),
+           'self.send_userauth_success': ret('any', 'sent_success', modifies=['_auth_complete', '_auth_in_progress']),
+           'self._auth.cancel': noop('auth_cancel'), 'lookup_server_auth': lookup_auth_stub},
+    falsy_sorts={'Any'},
+    # created only by _process_userauth_request (pre-at-call there: receive keys exist); _recv_encryption is never
+    # cleared, so it still holds when the task runs
+    requires=W_REQUIRES,
+    always=[('A1,A2-hold-afterwards;receive-keys-kept', enc_kept)]))
+finish_userauth.no_replay = True       # coroutine with awaited collaborators
 
 
 def extra_checks(tier, seed):
